@@ -57,7 +57,9 @@ pub fn gen(seed: u64, idx: u64, tier: Tier) -> Scenario {
             let nk = r.range(2, 8);
             small_fill(&mut r, &mut sc, nk, "k");
             let steps = match tier { Tier::Quick => r.range(4, 25), Tier::Thorough => r.range(4, 60) };
-            sc.steps.push(Step::Ctl { name: "concurrent_save".into(), n: (r.next() >> 1) as i64, a: vec![b(&format!("{}", nk)), b(&format!("{}", steps)), b(*r.pick(&["BGSAVE", "BGSAVE", "BGSAVE", "SAVE"]))] });
+            let how = *r.pick(&["BGSAVE", "BGSAVE", "BGSAVE", "SAVE", "AUTO"]);
+            if how == "AUTO" { sc.cfg.auto_save = true; sc.cfg.save_rules = vec![(1, 1)]; }
+            sc.steps.push(Step::Ctl { name: "concurrent_save".into(), n: (r.next() >> 1) as i64, a: vec![b(&format!("{}", nk)), b(&format!("{}", steps)), b(how)] });
         }
         _ => {
             let n3 = r.range(1, 6); small_fill(&mut r, &mut sc, n3, "d");
@@ -215,7 +217,18 @@ fn concurrent_save(h: &mut H, seed: u64, a: &[B]) {
         record(h, &mut hist);
     } else {
         h.sim.bg_eager = false;
-        match run(h, &[b"BGSAVE".to_vec()]) { Some(R::Simple(_)) => {} other => { h.violate("C10/bgsave-refused".into(), format!("{:?}", other.map(|x| x.short()))); h.sim.bg_eager = true; return; } }
+        if how == "AUTO" {
+            // the auto-save monitor thread decides: one change, the rule's second passes, the monitor wakes up and starts a background save
+            finish_savers(h, inst); // (a save the monitor may have started while the dataset was being built)
+            run(h, &[b"SET".to_vec(), b"k:auto".to_vec(), b"1".to_vec()]);
+            h.sim.advance(1_100_000_000);
+            record(h, &mut hist);
+            if let Some(mon) = h.sim.instances[inst].monitor_tid { let mut g = 0; while h.sim.is_runnable(mon) && h.sim.spawned_live(inst).is_empty() && g < 10_000 { g += 1; if h.sim.step(mon, 0, 0, 0).is_none() { break; } } }
+            if h.sim.spawned_live(inst).is_empty() { h.count("autosave_not_triggered", 1); h.sim.bg_eager = true; return; }
+            h.count("autosave_triggered", 1);
+        } else {
+            match run(h, &[b"BGSAVE".to_vec()]) { Some(R::Simple(_)) => {} other => { h.violate("C10/bgsave-refused".into(), format!("{:?}", other.map(|x| x.short()))); h.sim.bg_eager = true; return; } }
+        }
         let saver = match h.sim.spawned_live(inst).first().copied() { Some(t) => t, None => { h.count("bgsave_thread_not_found", 1); h.sim.bg_eager = true; return; } };
         let mut uniq = 0u64;
         let mut quanta = 0u64;
@@ -364,7 +377,7 @@ pub fn exec(sc: &Scenario) -> Outcome {
 pub static DEF: CheckDef = CheckDef {
     id: "C10", level: "exploration", gen, exec,
     nontrivial: |o| o.counters.get("restarts").copied().unwrap_or(0) >= 1 || o.counters.get("damaged_load_refused").copied().unwrap_or(0) + o.counters.get("damaged_load_accepted").copied().unwrap_or(0) >= 1,
-    rule: "runs rotate over three kinds. (F) fault runs: a first dataset is usually saved successfully (its dump bytes and dataset are remembered), the dataset is changed, and the next SAVE or BGSAVE meets one injected fault at the n-th open / write / fsync of the temporary file or at the rename (n = 0..14; ENOSPC, EIO, EDQUOT, EACCES, EINTR; short writes of 1..4096 bytes; process crash before the operation or after 0..all of its bytes); oracle: a failed SAVE leaves the dump file byte-identical, after any outcome a fresh server booted from the directory loads exactly the previous or exactly the new dataset (the new one if SAVE answered +OK), and a later SAVE succeeds and round-trips. (S) snapshot runs: BGSAVE's thread is held by the simulator and released a few storage-lock acquisitions / keys at a time (RDB_KEY and SHARD yield points) while a client deletes, replaces, grows, shrinks, re-types and re-expires the 2-8 keys, virtual time passes deadlines and the expiry sweeper gets turns (or SAVE with sweeper pre-emption); the complete dataset is recorded after every step; oracle: the dump loads in a fresh server and every key in it has a (value, deadline) pair that the key held at one recorded instant, and untouched keys are present. (D) damage runs: a valid dump is cut to a prefix, has one byte flipped or overwritten with an opcode-like value, is emptied or extended with garbage, and a fresh server is booted from each of 16-24 variants; oracle: start-up returns an error or a server that answers DBSIZE / KEYS and survives a walk of its data - never a panic, never a single allocation beyond the file size + 64 MiB. Non-trivial = at least one restart or damaged load",
+    rule: "runs rotate over three kinds. (F) fault runs: a first dataset is usually saved successfully (its dump bytes and dataset are remembered), the dataset is changed, and the next SAVE or BGSAVE meets one injected fault at the n-th open / write / fsync of the temporary file or at the rename (n = 0..14; ENOSPC, EIO, EDQUOT, EACCES, EINTR; short writes of 1..4096 bytes; process crash before the operation or after 0..all of its bytes); oracle: a failed SAVE leaves the dump file byte-identical, after any outcome a fresh server booted from the directory loads exactly the previous or exactly the new dataset (the new one if SAVE answered +OK), and a later SAVE succeeds and round-trips. (S) snapshot runs: the thread of a BGSAVE - or of a save started by the auto-save monitor thread once its rule (1 change / 1 s) is met - is held by the simulator and released a few storage-lock acquisitions / keys at a time (RDB_KEY and SHARD yield points) while a client deletes, replaces, grows, shrinks, re-types and re-expires the 2-8 keys, virtual time passes deadlines and the expiry sweeper gets turns (or SAVE with sweeper pre-emption); the complete dataset is recorded after every step; oracle: the dump loads in a fresh server and every key in it has a (value, deadline) pair that the key held at one recorded instant, and untouched keys are present. (D) damage runs: a valid dump is cut to a prefix, has one byte flipped or overwritten with an opcode-like value, is emptied or extended with garbage, and a fresh server is booted from each of 16-24 variants; oracle: start-up returns an error or a server that answers DBSIZE / KEYS and survives a walk of its data - never a panic, never a single allocation beyond the file size + 64 MiB. Non-trivial = at least one restart or damaged load",
     quick_budget_s: 45.0, thorough_budget_s: 900.0, quick_max_runs: 1_000_000, thorough_max_runs: 100_000_000, exhaustive: false, exhaustive_after: |_| 0,
     real: REAL_WHOLE_SERVER, stub: STUB_WHOLE_SERVER, assumptions: ASSUME_COMMON,
 };
